@@ -346,6 +346,22 @@ V('c20-none-match', 'C20', 'C20.R1',
   (VMF, "        if m is None:\n            valuemap_int = self._to_int(valuemap_str)\n            return (valuemap_int, valuemap_int, values_str)\n",
         "        if valuemap_str.isdigit():\n            valuemap_int = self._to_int(valuemap_str)\n            return (valuemap_int, valuemap_int, values_str)\n"), 'AttributeError')
 
+V('c20-truncate-wrong-bound', 'C20', 'C20.R5',
+  (VMF, "            del values_list[valuemap_size:]", "            del values_list[len(values_extra):]"), 'length-mismatch')
+V('c20-extend-off-by-one', 'C20', 'C20.R5',
+  (VMF, "            values_list.extend([values_default] * len(valuemap_extra))", "            values_list.extend([values_default] * (len(valuemap_extra) - 1))"), 'length-mismatch')
+V('c20-extend-wrong-slice', 'C20', 'C20.R5',
+  (VMF, "            valuemap_extra = valuemap_list[values_size:]", "            valuemap_extra = valuemap_list[values_size + 1:]"), 'length-mismatch')
+V('c20-range-half-open', 'C20', 'C20.R6',
+  (VMF, "            if lo <= element_value <= hi:", "            if lo <= element_value < hi:"), 'range-test')
+V('c20-unclaimed-no-backward', 'C20', 'C20.R6',
+  (VMF, "                vm._b2v_unclaimed = values_str\n                vm._v2b_dict[values_str] = None\n", "                vm._b2v_unclaimed = values_str\n"), 'unpaired')
+V('c20-range-backward-swapped', 'C20', 'C20.R6',
+  (VMF, "                    vm._v2b_dict[values_str] = (lo, hi)", "                    vm._v2b_dict[values_str] = (hi, lo)"), 'unpaired')
+V('c20-unclaimed-first', 'C20', 'C20.R6',
+  (VMF, "        # try single value\n        try:\n            return self._b2v_single_dict[element_value]\n        except KeyError:\n            pass\n",
+        "        if self._b2v_unclaimed is not None and not self._b2v_range_tuple_list:\n            return self._b2v_unclaimed\n        try:\n            return self._b2v_single_dict[element_value]\n        except KeyError:\n            pass\n"), 'reader-order')
+
 # ---- C07 ------------------------------------------------------------------
 V('c07-repr-float', 'C07', 'C07.R3',
   (OBJ, "                ret.append(str(value))\n            elif isinstance(value, (CIMInt, int)):",
